@@ -163,23 +163,30 @@ LevelAt(a2, b, sh) ==
   IN IF gt(2580) THEN 99 ELSE IF gt(1960) THEN 95 ELSE IF gt(1650) THEN 90 ELSE 0
 
 AllCells(X) == (1..Rows(X)) \X (1..Cols(X))
-\* integer rasters only (values <<n, 1>> or NaN); K a 0/1 kernel with at least one 1
-\* returns the set of admitted outputs for cell (r, c); band = half-width of the borderline band around each
-\* threshold, in thousandths of z
-HotAdmitted(X, K, r, c, band) ==
+\* integer rasters only (values <<n, 1>> or NaN); K a 0/1 kernel with at least one 1.
+\* global statistics of the raster: n finite cells, s1 = sum, vn = n^2 * variance
+HotStats(X) ==
   LET S == Finite(X, AllCells(X))
       n == Cardinality(S)
       s1 == SumCells(X, S, 1)[1]
       s2 == SumCells(X, S, 2)[1]
-      vn == n * s2 - s1 * s1                      \* n^2 * variance
-      kones == Cardinality({q \in (1..Rows(K)) \X (1..Cols(K)) : K[q[1]][q[2]] = 1})
+  IN [n |-> n, s1 |-> s1, vn |-> n * s2 - s1 * s1]
+
+\* the set of admitted outputs for cell (r, c); band = half-width of the borderline band around each
+\* threshold, in thousandths of z.  z = a / (kones * sqrt(vn)) with a = ws*n - s1*kones, so the sign of z is
+\* the sign of a and |z| > t  <=>  a^2 / (kones^2 * vn) > t^2  (no square roots).
+HotCell(X, K, r, c, band, st) ==
+  LET kones == Cardinality({q \in (1..Rows(K)) \X (1..Cols(K)) : K[q[1]][q[2]] = 1})
       full == [i \in 1..Rows(K) |-> [j \in 1..Cols(K) |-> 1]]
       hasnan == \E p \in WindowCells(X, full, r, c) : IsNaN(X[p[1]][p[2]])
       ws == SumCells(X, WindowCells(X, K, r, c), 1)[1]
-      a == ws * n - s1 * kones                    \* z = a / (kones * sqrt(vn))
+      a == ws * st.n - st.s1 * kones
       sgn == IF a > 0 THEN 1 ELSE IF a < 0 THEN -1 ELSE 0
+      b == kones * kones * st.vn
   IN IF ~WindowInside(X, K, r, c) \/ hasnan THEN {0}
-     ELSE {sgn * LevelAt(a * a, kones * kones * vn, band), sgn * LevelAt(a * a, kones * kones * vn, 0 - band)}
+     ELSE {sgn * LevelAt(a * a, b, band), sgn * LevelAt(a * a, b, 0 - band)}
+
+HotAdmitted(X, K, r, c, band) == HotCell(X, K, r, c, band, HotStats(X))
 
 Neg(X) == [r \in 1..Rows(X) |-> [c \in 1..Cols(X) |-> IF IsNaN(X[r][c]) THEN NaN ELSE <<0 - X[r][c][1], X[r][c][2]>>]]
 =============================================================================
